@@ -11,6 +11,7 @@ mod bitset;
 mod mint;
 mod gcd;
 mod rational;
+mod sieve;
 
 use util::arg_value;
 
@@ -43,6 +44,7 @@ fn main() {
         ("bitset", "record") => bitset::record(seed, &tier, &out),
         ("gcd", "record") => gcd::record(seed, &tier, &out),
         ("rational", "record") => rational::record(seed, &tier, &out),
+        ("sieve", "record") => sieve::record(seed, &tier, &out),
         ("mint", "record") => mint::record(seed, &tier, &out),
         ("writer", "replay") => writer::replay(&args[3], &out),
         ("writer", "record") => writer::record(seed, &tier, &out),
